@@ -58,7 +58,8 @@ def floors(tier):
     return {"evals": n * 3 // 4, "distinct": N_DEF[tier] * 3,
             "counters": {"children_reported": n * 3 // 4, "definitions_compared": N_DEF[tier] * 3 // 4,
                          "digest_pairs_compared": N_DEF[tier] * (N_VAR[tier] - 2) * 10 * 3 // 4,
-                         "in_process_regenerations_compared": N_DEF[tier] * (N_VAR[tier] - 2) * 3 // 4}}
+                         "in_process_regenerations_compared": N_DEF[tier] * (N_VAR[tier] - 2) * 3 // 4,
+                         "children_generating_another_definition_first": N_DEF[tier] * (N_VAR[tier] // 3) * 3 // 4}}
 
 
 def run_unit(unit, ctx):
@@ -72,6 +73,13 @@ def run_unit(unit, ctx):
              "calibration": rng.choice(["set", "list", "tuple", "frozenset"]) if v else "set"}
     job = {"defn": defn, "perm_seed": 0 if v == 0 else rng.getrandbits(32), "containers": conts,
            "cse": (i % 2 == 0)}
+    if v % 3 == 2:
+        # this child generates a definition of another shape first (a build script with several filters)
+        shape = [dict(n_control=(0, 0), n_calib=(0, 0)), dict(n_control=(1, 2), n_calib=(0, 0)),
+                 dict(n_control=(0, 0), n_calib=(1, 2))][(v // 3) % 3]
+        job["decoy"] = gen.program(gen.rng_for("vf", ID, ctx["seed"], "decoy", i, v), n_state=(2, 3), n_sensor=(1, 2),
+                                   n_reading=(1, 2), depth=1, containers=False, allow_text=False, **shape)
+        R.stats.inc("children_generating_another_definition_first")
     fd, path = tempfile.mkstemp(suffix=".json", prefix="vf_c15_")
     os.close(fd)
     try:
